@@ -129,6 +129,7 @@ type Exec struct {
 	replayOff  bool
 	deferIdx   map[*ast.DeferStmt]int
 	inlineStack []*inlineFrame
+	identAlias  map[string]*types.Var // contract identifier -> local it was matched to (renamed local)
 	discardCall *ast.CallExpr // the call of the expression statement being executed (its results are discarded)
 	closureVar map[types.Object]*FuncInfo
 	aliasHook  func(*State)
